@@ -2,8 +2,9 @@
   BartiqModel.Qref — QREF export / import (`Routine.to_qref`, `Routine.from_qref`, `repetition_to_qref`, …) at the level of
   structure: every expression field is written with a printer `pr` and read back with a parser `ps` (the subject of C11/C12);
   everything else — names, types, directions, connections, link targets, the kind of sequence, which optional fields are
-  present — is copied.  (The textual encoding of endpoints `child.port` and link targets `path.param` is external string
-  handling, exercised by the oracle.)
+  present — is copied, except endpoints and link targets, which the document holds as strings: `child.port` / `port`
+  (`_endpoint_to_qref`, `_endpoint_from_qref`: split at every dot) and `path.param` (`_linked_params_to_qref`, and
+  `target.rsplit(".", 1)` on import: split at the LAST dot, the path itself may contain dots).
 -/
 import BartiqModel.Routine
 namespace Bartiq
@@ -11,6 +12,36 @@ namespace Bartiq
 structure Codec where
   pr : Expr → String
   ps : String → Option Expr
+
+/-! ### the string encodings -/
+
+/-- split at the first occurrence of `c` -/
+def splitAtFirst (c : Char) : List Char → Option (List Char × List Char)
+  | [] => none
+  | x :: xs => if x = c then some ([], xs) else (splitAtFirst c xs).map fun p => (x :: p.1, p.2)
+
+/-- split at the last occurrence of `c` (`str.rsplit(c, 1)`) -/
+def splitAtLast (c : Char) (l : List Char) : Option (List Char × List Char) :=
+  (splitAtFirst c l.reverse).map fun p => (p.2.reverse, p.1.reverse)
+
+/-- `_endpoint_to_qref` -/
+def Endpoint.toStr (e : Endpoint) : String :=
+  match e.routine with
+  | none => e.port
+  | some r => r ++ "." ++ e.port
+
+/-- `_endpoint_from_qref`: `Endpoint(*s.split("."))` when there is a dot — more than one dot is a `TypeError` there, `none` here -/
+def Endpoint.ofStr (s : String) : Option Endpoint :=
+  match splitAtFirst '.' s.toList with
+  | none => some ⟨none, s⟩
+  | some (a, b) => if '.' ∈ b then none else some ⟨some (String.ofList a), String.ofList b⟩
+
+/-- `f"{target[0]}.{target[1]}"` -/
+def targetToStr (t : String × String) : String := t.1 ++ "." ++ t.2
+
+/-- `(split := target.rsplit(".", 1))[0], split[1]` — without any dot an `IndexError` there, `none` here -/
+def targetOfStr (s : String) : Option (String × String) :=
+  (splitAtLast '.' s.toList).map fun p => (String.ofList p.1, String.ofList p.2)
 
 structure QPort where
   name : String
@@ -43,10 +74,10 @@ structure QRoutine where
   type : Option String
   inputParams : List String
   localVars : List (String × String)
-  linked : List (String × List (String × String))
+  linked : List (String × List String)
   ports : List QPort
   resources : List QResource
-  conns : List (Endpoint × Endpoint)
+  conns : List (String × String)
   rep : Option QRep
   children : List QRoutine
 deriving Repr
@@ -74,10 +105,10 @@ def Routine.toQ (c : Codec) : Routine → QRoutine
   | ⟨n, ty, ips, lvs, lks, ps, rs, cs, rep, _, ch, _⟩ =>
     { name := n, type := ty, inputParams := ips,
       localVars := lvs.map fun kv => (kv.1, c.pr kv.2),
-      linked := lks,
+      linked := lks.map fun lk => (lk.1, lk.2.map targetToStr),
       ports := ps.map fun p => ⟨p.name, p.dir, c.pr p.size⟩,
       resources := rs.map fun r => ⟨r.name, r.ty, c.pr r.value⟩,
-      conns := cs,
+      conns := cs.map fun cn => (cn.1.toStr, cn.2.toStr),
       rep := rep.map fun rp => ⟨c.pr rp.count, rp.seq.toQ c⟩,
       children := Routine.toQList c ch }
 def Routine.toQList (c : Codec) : List Routine → List QRoutine
@@ -91,6 +122,8 @@ def QRoutine.fromQ (c : Codec) : QRoutine → Option Routine
     let lvs' ← lvs.mapM fun kv => (c.ps kv.2).map fun e => (kv.1, e)
     let ps' ← ps.mapM fun p => (c.ps p.size).map fun e => (⟨p.name, p.dir, e⟩ : Port)
     let rs' ← rs.mapM fun r => (c.ps r.value).map fun e => (⟨r.name, r.ty, e⟩ : Resource)
+    let lks' ← lks.mapM fun lk => (lk.2.mapM targetOfStr).map fun ts => (lk.1, ts)
+    let cs' ← cs.mapM fun cn => do some ((← Endpoint.ofStr cn.1), (← Endpoint.ofStr cn.2))
     let rep' ← (match rep with
       | none => some none
       | some rp => do
@@ -98,8 +131,8 @@ def QRoutine.fromQ (c : Codec) : QRoutine → Option Routine
         let sq ← rp.seq.fromQ c
         some (some ⟨cnt, sq⟩) : Option (Option Repetition))
     let ch' ← QRoutine.fromQList c ch
-    some { name := n, type := ty, inputParams := ips, localVars := lvs', linked := lks, ports := ps', resources := rs',
-           conns := cs, rep := rep', constraints := [], children := ch', childrenOrder := ch'.map (·.name) }
+    some { name := n, type := ty, inputParams := ips, localVars := lvs', linked := mergeLinks lks', ports := ps', resources := rs',
+           conns := cs', rep := rep', constraints := [], children := ch', childrenOrder := ch'.map (·.name) }
 def QRoutine.fromQList (c : Codec) : List QRoutine → Option (List Routine)
   | [] => some []
   | q :: qs => do
@@ -108,13 +141,8 @@ def QRoutine.fromQList (c : Codec) : List QRoutine → Option (List Routine)
     some (r :: rs)
 end
 
-/-- apply a function to every expression of a routine (structure untouched, constraints dropped as the export does) -/
-def Seq.mapExpr (f : Expr → Expr) : Seq → Seq
-  | .constant m => .constant (f m)
-  | .arithmetic i d => .arithmetic (f i) (f d)
-  | .geometric r => .geometric (f r)
-  | .closedForm s p n => .closedForm (s.map f) (p.map f) (f n)
-  | .custom t i => .custom (f t) (f i)
+/-! apply a function to every expression of a routine (structure untouched, constraints dropped as the export does);
+    `Seq.mapExpr` lives in BartiqModel/Routine.lean -/
 
 mutual
 def Routine.reread (f : Expr → Expr) : Routine → Routine
